@@ -42,7 +42,9 @@ pub fn parse_csv_row(row: &str) -> Vec<String> {
     let mut features = vec![];
     let mut rdr = csv_core::Reader::new();
     let mut bytes = row.as_bytes();
-    let mut output = [0; 4096];
+    // A field is never longer than the row, so the output buffer cannot overflow
+    // (`OutputFull` is unreachable below).
+    let mut output = vec![0; row.len().max(1)];
     loop {
         let (result, nin, nout) = rdr.read_field(bytes, &mut output);
         let end = match result {
